@@ -108,6 +108,9 @@ class Data(PyStub):
     def __contains__(self, k):
         return k in self.cols
 
+    def __len__(self):
+        return len(next(iter(self.cols.values()))) if self.cols else 0
+
     def __getitem__(self, mask):
         m = np.array([bool(v) for v in np.ravel(mask)])
         return Data({k: v[m] for k, v in self.cols.items()})
